@@ -741,6 +741,18 @@ Proof.
     now rewrite app_nil_r.
 Qed.
 
+(* the result of appendTextgrid has unique tier names again *)
+Theorem tg_append_nodup A B only g' :
+  NoDup (names A) -> NoDup (names B) -> tg_append A B only = Ok g' -> NoDup (names g').
+Proof.
+  intros HA HB H. rewrite (tg_append_names A B only g' HA HB H).
+  destruct only.
+  - now apply NoDup_filter.
+  - apply NoDup_app_intro; [exact HA|now apply NoDup_filter|].
+    intros x Hx Hy. apply filter_In in Hy as [_ Hy]. apply negb_true_iff in Hy.
+    apply name_in_In in Hx. congruence.
+Qed.
+
 (* ---------------- alignBoundariesAcrossTiers ---------------- *)
 
 Fixpoint subst_named (n : text) (t' : tier) (l : list tier) : list tier :=
